@@ -6,8 +6,10 @@ import (
 	"context"
 	"encoding/json"
 	"errors"
+	"time"
 
 	"github.com/matrix-org/gomatrixserverlib/spec"
+	"golang.org/x/crypto/ed25519"
 )
 
 // vpJoinQuerier: scripted view of the local room state for make_join.
@@ -184,4 +186,140 @@ func vp_C15_make_leave() {
 	}
 	vpReach("template", herr == nil)
 	vpReach("refused", herr != nil)
+}
+
+type vpMakeJoinResp struct {
+	proto ProtoEvent
+	ver   RoomVersion
+}
+
+func (r *vpMakeJoinResp) GetJoinEvent() ProtoEvent    { return r.proto }
+func (r *vpMakeJoinResp) GetRoomVersion() RoomVersion { return r.ver }
+
+type vpSendJoinResp struct {
+	auth, state EventJSONs
+	event       spec.RawJSON
+}
+
+func (r *vpSendJoinResp) GetAuthEvents() EventJSONs  { return r.auth }
+func (r *vpSendJoinResp) GetStateEvents() EventJSONs { return r.state }
+func (r *vpSendJoinResp) GetOrigin() spec.ServerName { return "x" }
+func (r *vpSendJoinResp) GetJoinEvent() spec.RawJSON { return r.event }
+func (r *vpSendJoinResp) GetMembersOmitted() bool    { return false }
+func (r *vpSendJoinResp) GetServersInRoom() []string { return nil }
+
+// vpJoinClient: the resident server. make_join hands out a template; send_join records what it was sent and answers
+// with the room state and, optionally, an echoed join event.
+type vpJoinClient struct {
+	makeResp *vpMakeJoinResp
+	makeErr  bool
+	sendErr  bool
+	sent     PDU
+	resp     *vpSendJoinResp
+	echo     func(sent PDU) spec.RawJSON
+}
+
+func (c *vpJoinClient) MakeJoin(ctx context.Context, origin, s spec.ServerName, roomID, userID string) (MakeJoinResponse, error) {
+	if c.makeErr {
+		return nil, errors.New("make_join refused")
+	}
+	return c.makeResp, nil
+}
+
+func (c *vpJoinClient) SendJoin(ctx context.Context, origin, s spec.ServerName, event PDU) (SendJoinResponse, error) {
+	c.sent = event
+	if c.sendErr {
+		return nil, errors.New("send_join refused")
+	}
+	if c.echo != nil {
+		c.resp.event = c.echo(event)
+	}
+	return c.resp, nil
+}
+
+// vp:check C15 both configs=version:10 K=24 timeout=1200 clock=fixed
+// vp_C15_perform_join: PerformJoin (the joining side) returns a join only if the resident server's answer passes the
+// federation-response checks for exactly the event that is returned: the event sent is a join of the user in the room
+// signed by the user's server; the returned event is that one or the resident's well-formed echo of it; whichever is
+// returned is allowed by the returned state (public / invite-only room); make_join / send_join failures are reported
+// as transient errors.
+func vp_C15_perform_join() {
+	ver := RoomVersion(vpConfig("version"))
+	verImpl, err := GetRoomVersion(ver)
+	vpAssume(err == nil)
+	c := vpBuild(verImpl, vpAlice, spec.MRoomCreate, vpStrPtr(""), vpJObj("creator", vpAlice, "room_version", string(ver)), nil, 1, true)
+	j := vpBuild(verImpl, vpAlice, spec.MRoomMember, vpStrPtr(vpAlice), vpJObj("membership", spec.Join), []string{c.EventID()}, 2, true)
+	p := vpBuild(verImpl, vpAlice, spec.MRoomPowerLevels, vpStrPtr(""), vpJObj("users", vpJObj(vpAlice, int64(100))), []string{c.EventID(), j.EventID()}, 3, true)
+	rule := vpChoice("join_rule", spec.Public, spec.Invite)
+	jr := vpBuild(verImpl, vpAlice, spec.MRoomJoinRules, vpStrPtr(""), vpJObj("join_rule", rule), []string{c.EventID(), j.EventID(), p.EventID()}, 4, true)
+
+	const joiner = "@c:y"
+	uid, err := spec.NewUserID(joiner, true)
+	vpAssume(err == nil)
+	rid, err := spec.NewRoomID(vpRoom)
+	vpAssume(err == nil)
+	sk := joiner
+	tmpl := ProtoEvent{SenderID: joiner, RoomID: vpRoom, Type: spec.MRoomMember, StateKey: &sk, Depth: 5,
+		PrevEvents: []string{jr.EventID()}, AuthEvents: []string{c.EventID(), p.EventID(), jr.EventID()}, Content: vpJObj("membership", spec.Join)}
+	client := &vpJoinClient{makeResp: &vpMakeJoinResp{proto: tmpl, ver: ver},
+		resp: &vpSendJoinResp{auth: EventJSONs{c.JSON(), j.JSON(), p.JSON(), jr.JSON()}, state: EventJSONs{c.JSON(), j.JSON(), p.JSON(), jr.JSON()}}}
+	fail := vpChoice("failure", "none", "make_join", "send_join")
+	client.makeErr, client.sendErr = fail == "make_join", fail == "send_join"
+	echo := vpChoice("echo", "none", "same", "forged-sender", "other-room", "garbage")
+	_, intruder := vpKey("intruder")
+	client.echo = func(sent PDU) spec.RawJSON {
+		switch echo {
+		case "same":
+			return spec.RawJSON(sent.JSON())
+		case "forged-sender":
+			// well formed by the shallow test (join, this room, state key = the joining user) but sent by somebody else
+			f := vpBuildAs(verImpl, "@m:z", joiner, vpRoom, []string{c.EventID(), p.EventID(), jr.EventID()}, ed25519.PrivateKey(intruder))
+			return spec.RawJSON(f.JSON())
+		case "other-room":
+			f := vpBuildAs(verImpl, joiner, joiner, vpRoom2, []string{c.EventID(), p.EventID(), jr.EventID()}, ed25519.PrivateKey(intruder))
+			return spec.RawJSON(f.JSON())
+		case "garbage":
+			return spec.RawJSON(`{"type":5}`)
+		}
+		return nil
+	}
+	pubX, _ := vpKey("server-x")
+	_, privY := vpKey("server-y")
+	db := &vpKeySource{name: "db", answer: "good-current", good: ed25519.PublicKey(pubX), now: spec.AsTimestamp(time.Now())}
+	ring := &KeyRing{KeyDatabase: db}
+	res, ferr := PerformJoin(context.Background(), client, PerformJoinInput{
+		UserID: uid, RoomID: rid, ServerName: "x", PrivateKey: ed25519.PrivateKey(privY), KeyID: "ed25519:y1", KeyRing: ring,
+		UserIDQuerier: vpUserIDForSender,
+	})
+
+	if fail == "none" {
+		s := client.sent
+		vpAssert("sent-a-join-of-the-user", s != nil && s.Type() == spec.MRoomMember && string(s.SenderID()) == joiner && s.StateKeyEquals(joiner) && s.RoomID().String() == vpRoom)
+		if s != nil {
+			m, merr := s.Membership()
+			vpAssert("sent-membership-join", merr == nil && m == spec.Join)
+		}
+	}
+	want := fail == "none" && rule == spec.Public && echo != "forged-sender"
+	vpAssert("joined-iff-the-returned-event-passes-the-checks", (ferr == nil) == want)
+	if ferr == nil {
+		e := res.JoinEvent
+		vpAssert("returned-event-is-the-users-join", e.Type() == spec.MRoomMember && string(e.SenderID()) == joiner && e.StateKeyEquals(joiner) && e.RoomID().String() == vpRoom)
+		st := res.StateSnapshot.GetStateEvents().UntrustedEvents(ver)
+		prov, perr := NewAuthEvents(st)
+		vpAssert("returned-event-allowed-by-returned-state", perr == nil && Allowed(e, prov, vpUserIDForSender) == nil)
+	} else if fail != "none" {
+		vpAssert("transport-failure-is-transient", ferr.Transient)
+	}
+	vpReach("joined", ferr == nil)
+	vpReach("refused", ferr != nil && fail == "none")
+}
+
+// vpBuildAs builds a join membership event for stateKey sent by sender in room, signed by key as server "z".
+func vpBuildAs(verImpl IRoomVersion, sender, stateKey, room string, auth []string, key ed25519.PrivateKey) PDU {
+	eb := verImpl.NewEventBuilderFromProtoEvent(&ProtoEvent{SenderID: sender, RoomID: room, Type: spec.MRoomMember, StateKey: &stateKey,
+		PrevEvents: []string{auth[len(auth)-1]}, AuthEvents: auth, Depth: 6, Content: vpJObj("membership", spec.Join)})
+	ev, err := eb.Build(time.Unix(1700000009, 0), "z", "ed25519:1", key)
+	vpAssume(err == nil)
+	return ev
 }
